@@ -1,12 +1,12 @@
 package harness
 
 import (
-	"strings"
-	"verifharness/props"
 	"encoding/json"
 	"fmt"
 	"os"
+	"strings"
 	"testing"
+	"verifharness/props"
 
 	"verifharness/sim"
 )
